@@ -14,7 +14,8 @@ import cert as C
 import recipes as R
 from props.c13 import monic, distribute
 
-THEOREMS = ["Adc.wickTerm_sound", "Adc.wickS_sound", "Adc.checkEquiv_sound"]
+THEOREMS = ["Adc.wickTerm_sound", "Adc.wickS_sound", "Adc.checkEquiv_sound", "Adc.norm_factor_series",
+            "Adc.norm_factor_orders", "Adc.mem_genTermOrders", "Adc.nodup_genTermOrders", "Adc.coeff_list_prod"]
 CLASSES = {1: "ph", 2: "pphh", 3: "ppphhh", 4: "pppphhhh"}
 OCC, VIRT = "ijkl", "abcd"
 
@@ -193,6 +194,7 @@ def run(ctx):
     import os
     from adcgen import Operators, GroundState
     part = os.environ.get("C02_PART", "LN")
+    R.check_series_tables(ctx, ("orders", "inv"))   # tie D for Adc/Series.lean (norm_factor_series)
     for variant, singles, energies, amps, expvals in plan(ctx):
         tag = f"{variant}{'+singles' if singles else ''}"
         gs = GroundState(Operators(variant=variant), first_order_singles=singles)
